@@ -253,8 +253,18 @@ def where_is(d):
 
 
 # ------------------------------------------------------------------ files
+FILLS = {"i1": -99, "u1": 250, "u2": 60000, "u4": 60000, "u8": 60000}
+
+
+def fill_of(dtype):
+    return FILLS.get(dtype, -999)
+
+
 def write_int_file(path, spec):
-    """spec: {"vars": [{"name", "shape", "flat", "group": None | "g1/g2"}]}: i8 variables, fill -999."""
+    """spec: {"vars": [{"name", "shape", "flat", "group": None | "g1/g2", "dtype": "i8",
+    "pack": {"unsigned": bool, "scale": [tag, value] | None, "offset": [tag, value] | None} | None}]}:
+    variables of any numeric type holding the given STORED values (None = the fill value), with the
+    packing attributes."""
     nc = netCDF4.Dataset(path, "w", format="NETCDF4")
     nc.Conventions = "CF-1.11"
     ndim = 0
@@ -269,9 +279,19 @@ def write_int_file(path, spec):
             ndim += 1
             grp.createDimension(name, s)
             dims.append(name)
-        var = grp.createVariable(v["name"], "i8", tuple(dims), fill_value=-999)
+        dt = v.get("dtype", "i8")
+        fill = fill_of(dt)
+        var = grp.createVariable(v["name"], dt, tuple(dims), fill_value=fill)
+        var.set_auto_maskandscale(False)
         var.long_name = "variable " + v["name"]
-        arr = np.array([-999 if x is None else x for x in v["flat"]], dtype="i8").reshape(v["shape"])
+        pack = v.get("pack") or {}
+        if pack.get("unsigned"):
+            var.setncattr("_Unsigned", "true")
+        if pack.get("scale"):
+            var.setncattr("scale_factor", np.array(pack["scale"][1], dtype=pack["scale"][0]))
+        if pack.get("offset"):
+            var.setncattr("add_offset", np.array(pack["offset"][1], dtype=pack["offset"][0]))
+        arr = np.array([fill if x is None else x for x in v["flat"]], dtype=dt).reshape(v["shape"])
         var[...] = arr
     nc.close()
 
@@ -294,8 +314,12 @@ def mk_index(idx):
 
 
 def raw_array(v):
-    vals = np.array([0 if x is None else x for x in v["flat"]], dtype="i8").reshape(v["shape"])
-    mask = np.array([x is None for x in v["flat"]], dtype=bool).reshape(v["shape"])
+    """The array eager access sees, as worked out by the harness (props/c12.py): the unpacked values
+    and their data type."""
+    flat = v.get("exp_flat", v["flat"])
+    dt = np.dtype(v.get("exp_dtype", "i8"))
+    vals = np.array([0 if x is None else x for x in flat], dtype=dt).reshape(v["shape"])
+    mask = np.array([x is None for x in flat], dtype=bool).reshape(v["shape"])
     if mask.any():
         return np.ma.array(vals, mask=mask)
     return vals
@@ -316,7 +340,17 @@ def apply_op(heap, op):
         heap[op[1]].to_memory(inplace=True)
         return {"none": True}
     if k == "arr":
-        return {"arr": obs_array(heap[op[1]].array)}
+        a = heap[op[1]].array
+        o = {"arr": obs_array(a)}
+        # overwrite what was returned: were it a view of the object's own array (or of anything a
+        # later fetch reuses), later results would show it
+        try:
+            if np.ma.isMA(a):
+                a.mask = False
+            a[...] = 77
+        except (ValueError, TypeError):
+            pass
+        return o
     if k == "set":
         v = cfdm.masked if op[3] is None else int(op[3])
         heap[op[1]][mk_index(op[2])] = v
@@ -324,10 +358,16 @@ def apply_op(heap, op):
     if k == "first":
         x = heap[op[1]].first_element()
         if x is np.ma.masked:
-            return {"arr": {"shape": [], "flat": [None], "dtype": "masked"}}
-        return {"arr": {"shape": [], "flat": [int(x)], "dtype": type(x).__name__}}
+            return {"arr": {"shape": [], "flat": [None], "dtype": "float64"}}
+        if isinstance(x, (float, np.floating)):
+            if not float(x).is_integer():
+                return {"arr": {"shape": [], "flat": [repr(x)], "dtype": "float64"}}
+            return {"arr": {"shape": [], "flat": [int(x)], "dtype": "float64"}}
+        return {"arr": {"shape": [], "flat": [int(x)], "dtype": "int64"}}
     if k == "eq":
-        return {"bool": bool(heap[op[1]].equals(heap[op[2]]))}
+        # (the fill value of a Data object is not the subject: variables of different stored types
+        #  are written with different _FillValues)
+        return {"bool": bool(heap[op[1]].equals(heap[op[2]], ignore_fill_value=True))}
     raise RuntimeError("unknown op " + str(op))
 
 
@@ -364,10 +404,14 @@ def do_ops(p):
                 else:
                     f = fields[hcell["var"]]
                     heap.append(f.data.copy())
-                    eager.append(cfdm.Data(raw_array(byname[hcell["var"]]), fill_value=-999))
+                    v = byname[hcell["var"]]
+                    eager.append(cfdm.Data(raw_array(v), fill_value=fill_of(v.get("dtype", "i8"))))
             row["start"] = [where_is(d) for d in heap]
             row["classes"] = sorted(set(type(d.source()).__name__ for d in heap))
             take_log()
+            # Data.dtype while the data are on disk (asking for it must not fetch anything)
+            row["start_dtype"] = [str(d.dtype) for d in heap]
+            row["dtype_log"] = [e for e in take_log() if e["e"] == "get"]
             steps = []
             has_missing = any(e is None for e in eager)
             for op in c["ops"]:
